@@ -314,7 +314,11 @@ pub fn strat_posix_string() -> BoxedStrategy<String> {
         1 => (-167 * 3600i32..=167 * 3600).prop_map(Some),
         1 => (-3i32 * 3600..=27 * 3600).prop_map(Some),
     ];
-    (abbr.clone(), off, prop::option::weighted(0.85, (abbr, prop::option::of(save), day.clone(), time.clone(), day, time)))
+    let general = (abbr.clone(), off.clone(), prop::option::weighted(0.85, (abbr.clone(), prop::option::of(save.clone()), day.clone(), time.clone(), day.clone(), time.clone())));
+    // both transitions at the same instant: same day, end time = start time + saving
+    let zero_len = (abbr.clone(), (-12i32..=12).prop_map(|h| h * 3600), abbr.clone(), prop_oneof![Just(3600i32), Just(1800), Just(7200)], prop_oneof![(3i32..=10, 1i32..=4, 0i32..=6).prop_map(|(m, w, d)| format!("M{m}.{w}.{d}")), (40i32..=320).prop_map(|n| format!("J{n}"))], (1i32..=20).prop_map(|h| h * 3600))
+        .prop_map(|(sa, so, da, sv, day, t1)| format!("{sa}{}{da}{},{day}/{},{day}/{}", fmt_hms(-so, false), fmt_hms(-(so + sv), false), fmt_hms(t1, false), fmt_hms(t1 + sv, false)));
+    let general = general
         .prop_map(|(sa, so, dst)| {
             // POSIX offsets are positive west of Greenwich
             let mut s = format!("{sa}{}", fmt_hms(-so, false));
@@ -338,8 +342,8 @@ pub fn strat_posix_string() -> BoxedStrategy<String> {
                 }
             }
             s
-        })
-        .boxed()
+        });
+    prop_oneof![12 => general, 1 => zero_len].boxed()
 }
 
 fn strat_posix_case() -> BoxedStrategy<PosixCase> {
@@ -370,7 +374,16 @@ fn test_posix(c: &PosixCase, cx: &mut Cx) -> CaseResult {
         }
     };
     let tame = p.is_tame(8 * 86400);
-    if !tame {
+    // A daylight period of zero length (both transitions at the same instant, well inside the
+    // year) is not a clamping matter: the data prescribes standard time at every instant.
+    let zero_length = p.rule.is_some()
+        && [1999i64, 2000, 2001, 2004, 2023, 2024, c.year].iter().all(|&y| {
+            let tr = p.year_transitions(y);
+            let (ys, ye) = (crate::refmodel::refcal::jan1(y) * 86400, crate::refmodel::refcal::jan1(y + 1) * 86400);
+            tr.len() == 2 && tr[0].0 == tr[1].0 && tr[0].0 - 200_000 > ys && tr[0].0 + 200_000 < ye
+        });
+    cx.class_if(zero_length, "zero-length-daylight-period");
+    if !tame && !zero_length {
         // year-spilling / degenerate rule: jiff documents that it clamps
         // rule transitions into their calendar year. Counted, not judged.
         cx.tolerate("year-spilling-rule");
